@@ -353,8 +353,10 @@ deriving DecidableEq, Repr, Inhabited
 
 /-- Everything trial number `i` of the loop will meet. -/
 structure TrialPlan where
-  /-- `study.ask()` inside `_run_trial` raises (sampler.before_trial / infer_relative_search_space
-  raise an Exception of class id c): the trial has been created RUNNING and nothing fails it -/
+  /-- `study.ask()` inside `_run_trial` raises (sampler.before_trial / infer_relative_search_space /
+  a fixed distribution raise an Exception of class id c): the trial has been created RUNNING;
+  `Study.ask` fails it (`except (Exception, KeyboardInterrupt): set_trial_state_values(FAIL); raise`)
+  and the exception leaves `_run_trial`, which calls `ask()` outside every `try` -/
   askRaises : Option Nat := none
   script : Script := {}
   sleep : Nat := 0                -- (virtual) seconds the objective takes
@@ -376,7 +378,7 @@ def runCallbacks (i : Nat) : Nat → List CbAct → List (Nat × Nat) × Bool ×
 /-- `_run_trial` including its `study.ask()` (line 192, outside every `try`). -/
 def runPlan (cfg : Cfg) (p : TrialPlan) : RunOut :=
   match p.askRaises with
-  | some c => ⟨{}, some (.user c)⟩
+  | some c => ⟨{ state := .fail }, some (.user c)⟩
   | none => runTrial cfg p.script
 
 structure SeqOut where
